@@ -565,6 +565,16 @@ func c08NeverStored(t *testing.T, rejected []string, tier string) (int, []report
 		if _, err := w.Sub.CreateSubscription(ctx, &pubsubpb.Subscription{Name: keep, Topic: topic, Filter: "attributes:x"}); err != nil {
 			t.Fatal(err)
 		}
+		keepNone, keepCleared := "projects/p/subscriptions/keep-none", "projects/p/subscriptions/keep-cleared"
+		if _, err := w.Sub.CreateSubscription(ctx, &pubsubpb.Subscription{Name: keepNone, Topic: topic}); err != nil {
+			t.Fatal(err)
+		}
+		if _, err := w.Sub.CreateSubscription(ctx, &pubsubpb.Subscription{Name: keepCleared, Topic: topic, Filter: "attributes:y"}); err != nil {
+			t.Fatal(err)
+		}
+		if _, err := w.Sub.UpdateSubscription(ctx, &pubsubpb.UpdateSubscriptionRequest{Subscription: &pubsubpb.Subscription{Name: keepCleared}, UpdateMask: &fieldmaskpb.FieldMask{Paths: []string{"filter"}}}); err != nil {
+			t.Fatal(err)
+		}
 		before, _ := w.Dump()
 		for i, s := range rejected {
 			if s == "" {
@@ -578,12 +588,19 @@ func c08NeverStored(t *testing.T, rejected []string, tier string) (int, []report
 				before, _ = w.Dump()
 				continue
 			}
-			_, err = w.Sub.UpdateSubscription(ctx, &pubsubpb.UpdateSubscriptionRequest{Subscription: &pubsubpb.Subscription{Name: keep, Filter: s}, UpdateMask: &fieldmaskpb.FieldMask{Paths: []string{"filter"}}})
-			n++
-			if err == nil {
-				viols = append(viols, report.Viol{Property: "C08", Check: "C08/store", Rule: "invalid-filter-stored", Text: fmt.Sprintf("UpdateSubscription accepted the non-sentence %q", s), Trace: []string{s}})
-			} else if c := status.Code(err); c != codes.InvalidArgument {
-				viols = append(viols, report.Viol{Property: "C08", Check: "C08/store", Rule: "invalid-filter-status", Text: fmt.Sprintf("UpdateSubscription(filter=%q) answered %v, want InvalidArgument", s, c), Trace: []string{s}})
+			// (the subscription that is updated has a filter / never had one / had its
+			// filter cleared: validation must not depend on what is stored)
+			for _, target := range []string{keep, keepNone, keepCleared} {
+				_, err = w.Sub.UpdateSubscription(ctx, &pubsubpb.UpdateSubscriptionRequest{Subscription: &pubsubpb.Subscription{Name: target, Filter: s}, UpdateMask: &fieldmaskpb.FieldMask{Paths: []string{"filter"}}})
+				n++
+				if err == nil {
+					viols = append(viols, report.Viol{Property: "C08", Check: "C08/store", Rule: "invalid-filter-stored", Text: fmt.Sprintf("UpdateSubscription (of %s) accepted the non-sentence %q", target, s), Trace: []string{s, target}})
+					// put the target back into its state
+					w.Sub.UpdateSubscription(ctx, &pubsubpb.UpdateSubscriptionRequest{Subscription: &pubsubpb.Subscription{Name: target, Filter: map[string]string{keep: "attributes:x"}[target]}, UpdateMask: &fieldmaskpb.FieldMask{Paths: []string{"filter"}}})
+					before, _ = w.Dump()
+				} else if c := status.Code(err); c != codes.InvalidArgument {
+					viols = append(viols, report.Viol{Property: "C08", Check: "C08/store", Rule: "invalid-filter-status", Text: fmt.Sprintf("UpdateSubscription(filter=%q) answered %v, want InvalidArgument", s, c), Trace: []string{s, target}})
+				}
 			}
 			if i%50 == 0 || i == len(rejected)-1 {
 				after, _ := w.Dump()
